@@ -411,6 +411,7 @@ def run(prog, chk):
         chk.bad("C10.d", f, "fastsignal-wait", "%s:%s" % (f.file, f.line), "FastSignal::wait must test _state with Atomic::load and otherwise block in Signal::wait")
 
     condition_wait_loops(prog, chk, "C10.m")
+    trampoline_calls_once(prog, chk, "C10.p")
     # the completion handshake stands on Signal (src/Signal.cpp is anchored here as well): a flag written outside the critical section
     # can be missed by a joiner that has tested it but not yet blocked - join() then never returns.  Decided by C11's lock-state rules.
     from . import c11 as _c11
@@ -642,3 +643,37 @@ def condition_wait_loops(prog, chk, rid):
                     "conversion return before the call has completed" % (f.nodes[bad[0]]["callee"], q.no_casts(f.r(bad[1]))[:20]), evals=len(cw) * max(1, len(rets)))
         else:
             chk.ok(rid, f, "every wake-up re-tests `signaled` before success is reported", f.where(cw[0]), "no test-free path from the wait to a `return true`", evals=len(cw) * max(1, len(rets)))
+
+
+def trampoline_calls_once(prog, chk, rid):
+    """the worker-side trampoline Future<..>::proc<Call>(call*) is where a started call is executed: exactly one `call()` on every path
+    (abort() is a cooperative flag the function may poll - it does not cancel the execution), before the completion is published"""
+    chk.rule(rid, "MPT/CNT: every path through Future<..>::proc<Call> passes exactly one `->call()` on the call record, and passes it before "
+                  "the completion is published (set())", floor=4)
+    fs = [f for f in prog.functions.values() if re.match(r"^Future<.*>::proc$", f.tname or f.name or "") and f.file.endswith("Future.hpp") and f.blocks and len(f.params) == 1]
+    if not fs:
+        fs = [f for f in prog.functions.values() if f.short == "proc" and f.file.endswith("Future.hpp") and f.blocks and len(f.params) == 1]
+    if len(fs) < 4:
+        raise AnalysisBroken("Future<..>::proc<Call> trampolines: only %d instantiated" % len(fs))
+    for f in sorted(fs, key=lambda g: g.sig):
+        p = f.params[0]["n"]
+        calls_ = [c for c in q.calls(f) if (f.nodes[c].get("callee") or "").endswith("::call") and q.call_object(f, c) is not None and
+                  q.no_casts(f.r(q.call_object(f, c))).lstrip("*(").rstrip(")") == p]
+        sets_ = [c for c in q.calls(f) if (f.nodes[c].get("callee") or "").endswith("::set")]
+        where = "%s:%s" % (f.file, f.line)
+        if not calls_:
+            chk.bad(rid, f, "trampoline-without-call", where, "the trampoline never calls `%s->call()`: the started function is not executed" % p)
+            continue
+        skip = f.find_path(f.entry_pos(), {f.exit_pos()}, avoid=q.pos_of(f, calls_), after_src=False)
+        twice = any(q.reaches(f, a, b) for a in calls_ for b in calls_)
+        late = [s_ for s_ in sets_ if f.node_pos(s_) is not None and f.find_path(f.entry_pos(), {f.node_pos(s_)}, avoid=q.pos_of(f, calls_), after_src=False) is not None]
+        if skip is not None:
+            chk.bad(rid, f, "call-not-executed-on-every-path", f.where(calls_[0]),
+                    "a path through the trampoline (lines %s) completes the future without `%s->call()`: the started function runs zero times "
+                    "(e.g. when abort() was requested before a worker picked the job up), the converted result is whatever `result` held" % (f.path_lines(skip)[:6], p), evals=len(calls_) + len(sets_))
+        elif twice:
+            chk.bad(rid, f, "call-executed-twice", f.where(calls_[0]), "`%s->call()` can be executed more than once on a path" % p, evals=len(calls_))
+        elif late:
+            chk.bad(rid, f, "completion-published-before-call", f.where(late[0]), "set() is reachable before `%s->call()`: join() returns before the execution" % p, evals=len(calls_) + len(sets_))
+        else:
+            chk.ok(rid, f, "exactly one call() on every path, before set()", f.where(calls_[0]), "MPT from the entry; no call reaches another", evals=len(calls_) + len(sets_) + 1)
